@@ -38,7 +38,12 @@ trim_reply = BranchTrim()
 
 def fuzz(rng):
     conc, ref, bsted, bface, fsink, wp = fuzz_values(rng)
-    crop = stub(HI0=0.48, bsted=bsted, bface=bface, fsink=fsink, WP=wp, CalendarType=1, fCO2=None)
+    # a real Crop object (so that attributes the reset reads besides the CO2 ones exist) with the
+    # fuzzed CO2 parameters; calendar-day type, so the thermal-calendar part of the reset is skipped
+    from aquacrop.entities.crop import Crop
+    crop = Crop("Wheat", planting_date="05/01")
+    crop.CalendarType = 1
+    crop.bsted, crop.bface, crop.fsink, crop.WP, crop.fCO2 = bsted, bface, fsink, wp, None
     if rng.random() < 0.5:
         co2 = stub(constant_conc=True, current_concentration=conc, ref_concentration=ref,
                    co2_data_processed=pd.Series([400.0], index=[2001]))
@@ -49,7 +54,8 @@ def fuzz(rng):
               planting_dates=[pd.Timestamp("2001-05-01")])
     ps = stub(CropChoices=["stub"], Soil=stub(nComp=3), Seasonal_Crop_List=[crop],
               FieldMngt=stub(bunds=False, z_bund=0.0, bund_water=0.0), CO2=co2)
-    return (cs, stub(), ps, None, None)
+    from aquacrop.entities.initParamVariables import InitialCondition
+    return (cs, InitialCondition(3), ps, None, None)
 
 
 from aquacrop.timestep.reset_initial_conditions import reset_initial_conditions as FUNC  # noqa: E402
